@@ -45,6 +45,118 @@ PREDICT = {
 }
 
 
+
+# ------------------------------------------------------------------ the ladder under the virtual clock
+VBODY = "import evh.pair as _p\n_p.CURRENT.body(channel, %d)\n"
+
+
+def run_ladder(tasks, backend, seed):
+    """tasks: list of (ends | None, swallows) -- task 0 runs in the worker's main thread (the pool's primary thread), the
+    others in pool threads.  The REAL WorkerGateway (serve, receiver thread with its epilogue, _terminate_execution,
+    WorkerPool) runs in the in-process pair; SIGINT is modelled by an asynchronous KeyboardInterrupt delivered to the
+    worker's main thread at its next scheduling point; os._exit is recorded.  Returns the exit time after EOF."""
+    import random as _r
+    from evh import sched as S
+    from evh import pair as P
+
+    sc = S.Sched(S.RandomChooser(_r.Random(seed)), max_steps=1500000)
+    pr = P.Pair(sc, remote_backend=backend, seed=seed)
+    P.CURRENT = pr
+    t_eof = [None]
+    started = []
+    ended = {}
+
+    def body(channel, k):
+        ends, swallows = tasks[k]
+        started.append(k)
+        while 1:
+            try:
+                while 1:
+                    if ends is not None and t_eof[0] is not None and sc.clock >= t_eof[0] + ends - 1e-9:
+                        ended[k] = sc.clock
+                        return
+                    pr.em_w.sleep(0.25)
+            except KeyboardInterrupt:
+                if not swallows:
+                    raise
+
+    pr.body = body
+    rec_kill = pr.gb.os.kill
+
+    def kill(pid, sig):
+        rec_kill(pid, sig)
+        sc.interrupt(pr.worker_main, KeyboardInterrupt())
+
+    pr.gb.os.kill = kill
+    res = {}
+
+    def user():
+        for k in range(len(tasks)):
+            pr.gw.remote_exec(VBODY % k)
+            pr.em_i.sleep(0.3)
+        pr.em_i.sleep(1.0)
+        t_eof[0] = sc.clock
+        pr.i2w.closed = True            # the initiator is gone: the worker reads EOF
+        pr.w2i.reader_closed = True
+        for _ in range(200):
+            pr.em_i.sleep(0.125)
+            ex = [e for e in pr.events if e[0] == "_exit"]
+            if ex:
+                res["exit"] = ex[0][2] - t_eof[0]
+                res["how"] = "os._exit"
+                break
+            if pr.serve_returned:
+                res["exit"] = getattr(pr, "serve_returned_at", sc.clock) - t_eof[0]
+                res["how"] = "serve returned"
+                break
+        sc.stop()
+
+    orig_serve = pr._serve
+
+    sc.spawn(user, name="user")
+    try:
+        r = sc.run(timeout=120)
+    finally:
+        pr.restore()
+    res["result"] = r
+    res["started"] = started
+    res["events"] = [list(e) for e in pr.events]
+    return res
+
+
+def virtual_layer(ck, ok, tier, rng):
+    if not ok:
+        return
+    cases = []
+    for _ in range(40 if tier == "quick" else 800):
+        backend = rng.choice(["thread", "thread", "main_thread_only"])
+        n = rng.choice([0, 1, 1, 2, 3]) if backend == "thread" else rng.choice([0, 1])
+        tasks = [(rng.choice([None, None, 0, 2, 4, 7, 12]), rng.random() < 0.4) for _ in range(n)]
+        cases.append((tasks, backend, rng.getrandbits(30)))
+    try:
+        mouts = Model().run([[11] + [x for k, (e, sw) in enumerate(t) for x in (-1 if e is None else e, 1 if k == 0 else 0, int(sw))] for t, _, _ in cases])
+    except Exception as e:  # noqa
+        ck.broke("correspondence", "modelrun-ladder", repr(e))
+        return
+    bad = 0
+    for (tasks, backend, sd), mo in zip(cases, mouts):
+        out = run_ladder(tasks, backend, sd)
+        ex = {"tasks_ends_swallows": tasks, "backend": backend, "seed": sd, "impl": {k: out.get(k) for k in ("exit", "how", "result", "started")}, "model_exit": mo[0]}
+        ck.case(("ladder", repr(tasks), backend), nontrivial=bool(tasks))
+        ck.count("ladder_" + backend)
+        if out.get("exit") is None:
+            ck.fail("virtual-worker-never-exits", ex)
+            continue
+        if out["exit"] > 15 + 0.5:
+            ck.fail("virtual-worker-exits-after-t1+t2", ex)
+        if abs(out["exit"] - mo[0]) > 0.6:
+            bad += 1
+            if bad <= 3:
+                ck.broke("correspondence", "ladder-model-vs-virtual-worker", ex)
+    ck.cov["ladder_virtual_cases"] = len(cases)
+    ck.cov["ladder_virtual_mismatches"] = bad
+
+
 def main(tier, seed, replay=None):
     ck = Check("C11", tier, seed)
     ck.assumptions += [
@@ -55,6 +167,7 @@ def main(tier, seed, replay=None):
     ]
     ok = ck.prepare(need_model=True)
     rng = ck.rng
+    virtual_layer(ck, ok, tier, rng)
     real_layer(ck, tier, rng)
     return ck.finish(rule="real processes: an initiating process (own interpreter) starts 1-2 popen workers (thread / main_thread_only) with one of 9 activities (idle, blocked in receive, busy loop, sleeping, swallowing KeyboardInterrupt -- validated locally to survive three SIGINTs --, extra daemon threads, a busy body outside the main thread, a callback sleeping while it holds the receive lock, an endless 1 MB transfer) and is SIGKILLed / exits / closes the connection after the workers reported their pids; every worker pid must be gone after t1 + t2 + slack. distinct = (activity, how, execmodel, workers).")
 
